@@ -435,3 +435,42 @@ def r8_forward_reverse_order(ck, P):
                     ck.violation(R, f.name, 'order of the reverse product', '%s does not form reverse = reverse * T^-1 (the elementary inverse on the right): for a reverse that already holds a translation or a non-uniform scale it is no longer the inverse of forward' % f.name, c.loc())
     if n == 0:
         ck.incomplete(R, 'no (forward, reverse) updater found in pixman-matrix.c')
+
+
+def r10_affine_helper_precondition(ck, P):
+    """who-may-call with a precondition: the affine point helper ignores the vector's third component and the matrix's bottom row and
+    returns w = 1.  A caller that wants the full product may use it only where the vector's w is known to be 1."""
+    R = ck.rule('C11-R10', 'every call inside the library of the 31.16 point helpers uses the helper that computes what the caller returns: the general 3x3 product (_3d) or the projective point (_31_16) unconditionally; the affine helper - which ignores vector[2] and matrix row 2 and returns w = 1 - only under a guard that the vector\'s third component equals pixman_fixed_1 (a guard on the matrix alone is not enough)', floor=2)
+    n = 0
+    for f in P.functions():
+        for c in f.calls():
+            if not (c.callee or '').startswith('pixman_transform_point_31_16'):
+                continue
+            n += 1; ck.saw(f)
+            where = '%s -> %s at %s' % (f.name, c.callee, c.loc())
+            if not c.callee.endswith('_affine'):
+                ck.ok(R, where); continue
+            ok = False
+            for t, s in f.guard_edges(c.bb.id):
+                cc = f.v(t.a[0]) if t.a else None
+                if cc is None or cc.op != 'icmp' or cc.d['p'] not in ('eq', 'ne'):
+                    continue
+                if (cc.d['p'] == 'eq') != (t.d['succ'][0] == s):
+                    continue
+                k = [a for a in cc.a if a[0] == 'c' and int(a[1]) == 65536]
+                o = [a for a in cc.a if not (a[0] == 'c')]
+                if not k or len(o) != 1:
+                    continue
+                y = f.v(o[0])
+                while y is not None and y.op in ('sext', 'zext', 'trunc'):
+                    y = f.v(y.a[0])
+                if y is not None and y.op == 'load':
+                    p = f.path(y.a[0])
+                    if p[1] and p[1][-1] == '[2]' and len(p[1]) >= 2 and 'vector' in str(p[1][-2]).lower() and 'transform' not in str(p):
+                        ok = True
+            if ok:
+                ck.ok(R, where, 'guarded by vector[2] == 1.0')
+            else:
+                ck.violation(R, f.name, 'call of %s' % c.callee, '%s hands its vector to the affine helper without having established that the vector\'s third component is 1.0: the helper neither scales the translation column by w nor returns the caller\'s w, so for w != 1 a wrong product is returned with TRUE' % f.name, c.loc())
+    if n == 0:
+        ck.incomplete(R, 'no call of a pixman_transform_point_31_16* helper found inside the library')
